@@ -89,11 +89,27 @@ def finish(run, level, level_text, rule, explanation=""):
 # ------------------------------------------------------------------------------------------------
 class MachineSpec:
     def __init__(self, pid, proj, profile, cfgs, count, interesting, variants=("include", "development"),
-                 monitor_ids=None, wrapper=(), extra_flags=(), cxx="g++", opt="-O0", extra=None):
+                 monitor_ids=None, wrapper=(), extra_flags=(), cxx="g++", opt="-O0", extra=None, odd=True):
         self.pid = pid; self.proj = proj; self.profile = profile; self.cfgs = cfgs; self.count = count
         self.interesting = interesting; self.variants = variants; self.monitor_ids = monitor_ids or [pid]
         self.wrapper = wrapper; self.extra_flags = extra_flags; self.cxx = cxx; self.opt = opt
         self.extra = extra          # optional: tier -> [(cfg, script, source)]: enumerated scripts on top of the generated ones
+        self.odd = odd              # also run the profile on the pool of out-of-the-way configurations (cfgs_odd)
+
+def cfgs_odd(tier):
+    FULL = 0x3fff
+    out = [cfgmod.make(n=1, head=0, manual=1, limit=1, cap=1, payload=1, ctx=2, plans=1, serial=1, history=1, log="on"),
+           cfgmod.make(n=2, head=1, manual=0, limit=8, cap=0, payload=0, ctx=0, plans=1, serial=0, history=0, log="off", inj_state=3, order=1),
+           cfgmod.make(n=65, head=0, manual=1, limit=2, cap=2, payload=5, ctx=0, plans=1, serial=1, history=1, log="verbose"),
+           cfgmod.make(n=129, head=1, manual=0, limit=2, cap=3, payload=0, ctx=1, plans=0, serial=1, history=1, log="off"),
+           cfgmod.make(n=3, head=1, manual=0, limit=2, cap=2, payload=0, ctx=3, plans=1, serial=0, history=0, log="on", constcb=1, defroot=0x3555, defstate=0x0aaa),
+           cfgmod.make(n=4, head=1, manual=1, limit=3, cap=6, payload=0, ctx=0, plans=1, serial=0, history=1, log="off", inj_root=2, order=1),
+           cfgmod.make(n=9, head=0, manual=0, limit=1, cap=1, payload=3, ctx=0, plans=1, serial=1, history=0, log="on", tapi=1),
+           cfgmod.make(n=2, head=1, manual=1, limit=4, cap=2, payload=4, ctx=0, plans=0, serial=1, history=1, log="verbose", inj_state=1, inj_root=1, defstate=0)]
+    if tier != "quick":
+        out += [cfgmod.make(n=255, head=1, manual=1, limit=2, cap=0, payload=2, ctx=0, plans=1, serial=1, history=1, log="off"),
+                cfgmod.make(n=17, head=0, manual=0, limit=255, cap=254, payload=0, ctx=0, plans=1, serial=0, history=1, log="off")]
+    return out
 
 def cfg_from_line(line):
     kv = dict(t.split("=") for t in line.split()[1:])
@@ -200,6 +216,11 @@ def run_machine(run, spec):
     cfgs = spec.cfgs(tier, random.Random(int(hashlib.sha256((spec.pid + tier).encode()).hexdigest()[:8], 16)))
     # every other small configuration is also built against the template overloads of the API (changeTo<T>(), isActive<T>(), plan.change<A, B>(), ...)
     cfgs = cfgs + [dict(c, tapi=1) for k, c in enumerate(cfgs) if c["n"] <= 5 and (k % 2 == 0 or (c["plans"] and c["payload"]))]
+    # ... and every check also runs its profile, with fewer scripts, on a fixed pool of out-of-the-way configurations (smallest and large machines, default
+    # and above-state-count capacities, every context kind, three injected bases, const and partly defined callbacks, reversed option order, every payload kind):
+    # a change that matters only in such a corner is then seen by the check of whichever property it breaks
+    odd = cfgs_odd(tier) if (spec.odd and not spec.extra_flags and spec.cxx == "g++") else []
+    odd = [c for c in odd if cfgmod.name(c) not in [cfgmod.name(x) for x in cfgs]]
     extra = spec.extra(tier) if spec.extra else []
     cfgs = cfgs + [c for c in {cfgmod.name(e[0]): e[0] for e in extra}.values() if cfgmod.name(c) not in [cfgmod.name(x) for x in cfgs]]
     corpus = corpus_scripts(spec.pid)
@@ -208,7 +229,7 @@ def run_machine(run, spec):
         try: corpus_cfgs.append(cfg_from_line(s.split("\n")[0]))
         except Exception as e: run.notes.append("corpus script %s unreadable: %r" % (path, e))
     all_cfgs = []
-    for c in cfgs + corpus_cfgs:
+    for c in cfgs + odd + corpus_cfgs:
         if cfgmod.name(c) not in [cfgmod.name(x) for x in all_cfgs]: all_cfgs.append(c)
     jobs = [(c, v) for c in all_cfgs for v in spec.variants]
     built = common.pmap(lambda cv: cfgmod.build(cv[0], cv[1], extra_flags=spec.extra_flags, cxx=spec.cxx, opt=spec.opt), jobs)
@@ -232,6 +253,9 @@ def run_machine(run, spec):
         if cfgmod.name(c) in extra_names and cfgmod.name(c) not in [cfgmod.name(x) for x in spec.cfgs(tier, random.Random(1))]: continue
         for k in range(per):
             work.append((c, gen.gen_script(rng, c, spec.profile(c) if callable(spec.profile) else spec.profile), "generated"))
+    for c in odd:
+        for k in range(max(6, per // 6)):
+            work.append((c, gen.gen_script(rng, c, spec.profile(c) if callable(spec.profile) else spec.profile), "generated:odd-configuration"))
     run.evaluations += len(work)
     def one(w):
         c, s, src = w
